@@ -79,5 +79,6 @@ func PrefilledCache(slots int, keys []*GoType, vals []interface{}) *ProgramCache
 	return caching.VerifPrefilled(slots, keys, vals)
 }
 
-// SortMapKeys runs the encoder's map-key sorter on keys in the given order.
-func SortMapKeys(keys []string) ([]string, bool) { return alg.VerifSortKeys(keys) }
+// SortMapKeys runs the encoder's map-key sorter on keys in the given order; own = every key
+// lives in its pair's own scratch array (the integer-key layout).
+func SortMapKeys(keys []string, own bool) ([]string, bool) { return alg.VerifSortKeys(keys, own) }
